@@ -50,6 +50,7 @@ from .spec import (  # noqa: F401
     le_tol,
     lt_tol,
     pow2,
+    pow2_unfold,
     py_floordiv,
     py_slice_bounds,
     seq_get,
